@@ -66,6 +66,19 @@ CHECKS = {
          "repeat=True are compared with onepass[k mod N] (unshuffled), checked for membership and non-termination (shuffled) and per-epoch permutation (Rust).",
     note="tf.data.repeat is a specified external.",
     ref="DESIGN.md §5 C19"),
+ "C04": dict(
+    technique="Lean 4 proof (merge_spec by induction on the recursion with frame lemmas, for every tree depth; exactness of every split after every history of sessions; recorded totals = enumeration totals) + differential correspondence of the shards_list.json documents after every session of generated histories, and an independent recount oracle",
+    text="C04_merge_exact, C04_session_exact, C04_history_exact, C04_touched_split_recorded, C04_counts, C04_written_listed (+ C03_iter_order, C03_merge_keeps_update_order). "
+         "Histories over root / fresh / reused / nested sub-directory fillers and multi-writer calls are executed on the real API; after every session the canonicalised list "
+         "documents must equal the model's store, and the tree is recounted from disk (decode every shard, no file listed twice or unlisted, handle == fresh open, check() passes).",
+    note="Per-shard counts come from M-FILL (C10). pydantic (de)serialisation and the shard decoders are modelled-not-verified; multi-writer calls run single_process here (real processes: C09).",
+    ref="DESIGN.md §5 C04, Appendix A.2"),
+ "C08": dict(
+    technique="Lean 4 proof (merge never changes any list's shard files, keeps reachable directories reachable, reaches every update; sessions only append) + per-split before/after multiset comparison on generated histories; create-refused check",
+    text="C08_merge_keeps_files, C08_merge_keeps_reachable, C08_session_append_only, C08_untouched_dirs_unchanged, C08_create_refused. After every session of a generated history the "
+         "examples reachable per split are exactly previous + newly written; Dataset.create on an existing dataset raises and leaves all files byte-identical.",
+    note="Same model and externals as C04.",
+    ref="DESIGN.md §5 C08"),
 }
 
 def main():
